@@ -529,175 +529,238 @@ func specObjValuesFrom(m map[string]interface{}, i int, acc []interface{}) []int
 	return specObjValuesFrom(m, i+1, append(acc, m[specObjKeyAt(m, i)]))
 }
 
+// specEval dispatches on the node type; each clause is a function of its own so
+// that a proof about one node type only has to unfold that clause.
 func specEval(n ASTNode, v interface{}) (interface{}, bool) {
-	kids := n.children
 	switch n.nodeType {
 	case ASTField:
 		return specField(n.value, v), true
 	case ASTIndex:
 		return specIndex(n.value, v), true
 	case ASTSubexpression, ASTIndexExpression:
-		if len(kids) != 2 {
-			return nil, false
-		}
-		l, ok := specEval(kids[0], v)
-		if !ok {
-			return nil, false
-		}
-		return specEval(kids[1], l)
+		return specEvalSub(n, v)
 	case ASTLiteral:
 		return n.value, true
 	case ASTIdentity, ASTCurrentNode:
 		return v, true
 	case ASTKeyValPair:
-		if len(kids) != 1 {
-			return nil, false
-		}
-		return specEval(kids[0], v)
+		return specEvalKeyVal(n, v)
 	case ASTPipe:
-		return specPipeFrom(kids, 0, v)
+		return specPipeFrom(n.children, 0, v)
 	case ASTMultiSelectList:
-		if v == nil {
-			return nil, true
-		}
-		r, ok := specListFrom(kids, 0, v, specEmptyList())
-		if !ok {
-			return nil, false
-		}
-		return r, true
+		return specEvalList(n, v)
 	case ASTMultiSelectHash:
-		if v == nil {
-			return nil, true
-		}
-		r, ok := specHashFrom(kids, 0, v, specEmptyObj())
-		if !ok {
-			return nil, false
-		}
-		return r, true
+		return specEvalHash(n, v)
 	case ASTComparator:
-		if len(kids) != 2 {
-			return nil, false
-		}
-		l, ok := specEval(kids[0], v)
-		if !ok {
-			return nil, false
-		}
-		r, ok2 := specEval(kids[1], v)
-		if !ok2 {
-			return nil, false
-		}
-		return specCompare(n.value, l, r)
+		return specEvalComparator(n, v)
 	case ASTOrExpression:
-		if len(kids) != 2 {
-			return nil, false
-		}
-		l, ok := specEval(kids[0], v)
-		if !ok {
-			return nil, false
-		}
-		if specFalse(l) {
-			return specEval(kids[1], v)
-		}
-		return l, true
+		return specEvalOr(n, v)
 	case ASTAndExpression:
-		if len(kids) != 2 {
-			return nil, false
-		}
-		l, ok := specEval(kids[0], v)
-		if !ok {
-			return nil, false
-		}
-		if specFalse(l) {
-			return l, true
-		}
-		return specEval(kids[1], v)
+		return specEvalAnd(n, v)
 	case ASTNotExpression:
-		if len(kids) != 1 {
-			return nil, false
-		}
-		l, ok := specEval(kids[0], v)
-		if !ok {
-			return nil, false
-		}
-		return specFalse(l), true
+		return specEvalNot(n, v)
 	case ASTFlatten:
-		if len(kids) != 1 {
-			return nil, false
-		}
-		l, ok := specEval(kids[0], v)
-		if !ok {
-			return nil, false
-		}
-		a, isArr := l.([]interface{})
-		if !isArr {
-			return nil, true
-		}
-		return specFlattenFrom(a, 0, specEmptyList()), true
+		return specEvalFlatten(n, v)
 	case ASTProjection:
-		if len(kids) != 2 {
-			return nil, false
-		}
-		l, ok := specEval(kids[0], v)
-		if !ok {
-			return nil, false
-		}
-		a, isArr := l.([]interface{})
-		if !isArr {
-			return nil, true
-		}
-		r, ok2 := specProjFrom(kids[1], a, 0, specEmptyList())
-		if !ok2 {
-			return nil, false
-		}
-		return r, true
+		return specEvalProjection(n, v)
 	case ASTFilterProjection:
-		if len(kids) != 3 {
-			return nil, false
-		}
-		l, ok := specEval(kids[0], v)
-		if !ok {
-			return nil, false
-		}
-		a, isArr := l.([]interface{})
-		if !isArr {
-			return nil, true
-		}
-		r, ok2 := specFilterFrom(kids[2], kids[1], a, 0, specEmptyList())
-		if !ok2 {
-			return nil, false
-		}
-		return r, true
+		return specEvalFilter(n, v)
 	case ASTValueProjection:
-		if len(kids) != 2 {
-			return nil, false
-		}
-		l, ok := specEval(kids[0], v)
-		if !ok {
-			return nil, false
-		}
-		m, isObj := l.(map[string]interface{})
-		if !isObj {
-			return nil, true
-		}
-		r, ok2 := specProjFrom(kids[1], specObjValuesFrom(m, 0, specEmptyList()), 0, specEmptyList())
-		if !ok2 {
-			return nil, false
-		}
-		return r, true
+		return specEvalValueProjection(n, v)
 	case ASTSlice:
-		a, isArr := v.([]interface{})
-		if !isArr {
-			return nil, true
-		}
-		parts, _ := n.value.([]*int)
-		sp := specSliceParams(parts)
-		if sp[2].Specified && sp[2].N == 0 {
-			return nil, false
-		}
-		return specPySlice(a, sp), true
+		return specEvalSlice(n, v)
 	}
 	// function calls and expression references are specified by the function contracts
 	return nil, false
+}
+
+func specEvalSub(n ASTNode, v interface{}) (interface{}, bool) {
+	kids := n.children
+	if len(kids) != 2 {
+		return nil, false
+	}
+	l, ok := specEval(kids[0], v)
+	if !ok {
+		return nil, false
+	}
+	return specEval(kids[1], l)
+}
+
+func specEvalKeyVal(n ASTNode, v interface{}) (interface{}, bool) {
+	kids := n.children
+	if len(kids) != 1 {
+		return nil, false
+	}
+	return specEval(kids[0], v)
+}
+
+func specEvalList(n ASTNode, v interface{}) (interface{}, bool) {
+	if v == nil {
+		return nil, true
+	}
+	r, ok := specListFrom(n.children, 0, v, specEmptyList())
+	if !ok {
+		return nil, false
+	}
+	return r, true
+}
+
+func specEvalHash(n ASTNode, v interface{}) (interface{}, bool) {
+	if v == nil {
+		return nil, true
+	}
+	r, ok := specHashFrom(n.children, 0, v, specEmptyObj())
+	if !ok {
+		return nil, false
+	}
+	return r, true
+}
+
+func specEvalComparator(n ASTNode, v interface{}) (interface{}, bool) {
+	kids := n.children
+	if len(kids) != 2 {
+		return nil, false
+	}
+	l, ok := specEval(kids[0], v)
+	if !ok {
+		return nil, false
+	}
+	r, ok2 := specEval(kids[1], v)
+	if !ok2 {
+		return nil, false
+	}
+	return specCompare(n.value, l, r)
+}
+
+func specEvalOr(n ASTNode, v interface{}) (interface{}, bool) {
+	kids := n.children
+	if len(kids) != 2 {
+		return nil, false
+	}
+	l, ok := specEval(kids[0], v)
+	if !ok {
+		return nil, false
+	}
+	if specFalse(l) {
+		return specEval(kids[1], v)
+	}
+	return l, true
+}
+
+func specEvalAnd(n ASTNode, v interface{}) (interface{}, bool) {
+	kids := n.children
+	if len(kids) != 2 {
+		return nil, false
+	}
+	l, ok := specEval(kids[0], v)
+	if !ok {
+		return nil, false
+	}
+	if specFalse(l) {
+		return l, true
+	}
+	return specEval(kids[1], v)
+}
+
+func specEvalNot(n ASTNode, v interface{}) (interface{}, bool) {
+	kids := n.children
+	if len(kids) != 1 {
+		return nil, false
+	}
+	l, ok := specEval(kids[0], v)
+	if !ok {
+		return nil, false
+	}
+	return specFalse(l), true
+}
+
+func specEvalFlatten(n ASTNode, v interface{}) (interface{}, bool) {
+	kids := n.children
+	if len(kids) != 1 {
+		return nil, false
+	}
+	l, ok := specEval(kids[0], v)
+	if !ok {
+		return nil, false
+	}
+	a, isArr := l.([]interface{})
+	if !isArr {
+		return nil, true
+	}
+	return specFlattenFrom(a, 0, specEmptyList()), true
+}
+
+func specEvalProjection(n ASTNode, v interface{}) (interface{}, bool) {
+	kids := n.children
+	if len(kids) != 2 {
+		return nil, false
+	}
+	l, ok := specEval(kids[0], v)
+	if !ok {
+		return nil, false
+	}
+	a, isArr := l.([]interface{})
+	if !isArr {
+		return nil, true
+	}
+	r, ok2 := specProjFrom(kids[1], a, 0, specEmptyList())
+	if !ok2 {
+		return nil, false
+	}
+	return r, true
+}
+
+func specEvalFilter(n ASTNode, v interface{}) (interface{}, bool) {
+	kids := n.children
+	if len(kids) != 3 {
+		return nil, false
+	}
+	l, ok := specEval(kids[0], v)
+	if !ok {
+		return nil, false
+	}
+	a, isArr := l.([]interface{})
+	if !isArr {
+		return nil, true
+	}
+	r, ok2 := specFilterFrom(kids[2], kids[1], a, 0, specEmptyList())
+	if !ok2 {
+		return nil, false
+	}
+	return r, true
+}
+
+func specEvalValueProjection(n ASTNode, v interface{}) (interface{}, bool) {
+	kids := n.children
+	if len(kids) != 2 {
+		return nil, false
+	}
+	l, ok := specEval(kids[0], v)
+	if !ok {
+		return nil, false
+	}
+	m, isObj := l.(map[string]interface{})
+	if !isObj {
+		return nil, true
+	}
+	r, ok2 := specProjFrom(kids[1], specObjValuesFrom(m, 0, specEmptyList()), 0, specEmptyList())
+	if !ok2 {
+		return nil, false
+	}
+	return r, true
+}
+
+func specEvalSlice(n ASTNode, v interface{}) (interface{}, bool) {
+	a, isArr := v.([]interface{})
+	if !isArr {
+		return nil, true
+	}
+	parts, _ := n.value.([]*int)
+	sp := specSliceParams(parts)
+	if sp[2].Specified && sp[2].N == 0 {
+		return nil, false
+	}
+	return specPySlice(a, sp), true
 }
 
 // specPipe2Node builds the AST of "l | r"; specPipe2 evaluates "l | r" (C15 lemmas).
